@@ -1462,6 +1462,98 @@ CLI_ROLE = {"domain": "DOMAIN", "object_type": "OTYPE", "name": "NAME"}
 HREF_INDEX_ROLE = {0: "INV", 1: "DOMAIN", 2: "OTYPE"}
 
 
+def _callee(call: ast.Call, fi: FunctionInfo, g) -> FunctionInfo | None:
+    """The single package function a call resolves to (helper following), else None."""
+    ts = [t for t in g.flat_targets(g.resolve_call(call, fi)) if not t.is_lambda]
+    return ts[0] if len(ts) == 1 else None
+
+
+def _arg_map(call: ast.Call, tf: FunctionInfo) -> dict[str, ast.expr]:
+    """Parameter name -> argument expression of a call of ``tf`` (self/cls of a bound call skipped)."""
+    params = list(tf.params)
+    if tf.cls is not None and "staticmethod" not in tf.decorators() and params and isinstance(call.func, ast.Attribute):
+        params = params[1:]
+    out: dict[str, ast.expr] = {}
+    for i, a in enumerate(call.args):
+        if isinstance(a, ast.Starred) or i >= len(params):
+            raise Unsupported(f"call `{short(call, 50)}`: arguments not mapped to parameters of {tf.qualname}")
+        out[params[i]] = a
+    for kw in call.keywords:
+        if kw.arg is None:
+            raise Unsupported(f"call `{short(call, 50)}` passes **kwargs")
+        out[kw.arg] = kw.value
+    return out
+
+
+def _record_fields(corpus: Corpus, fi: FunctionInfo, ctor: ast.Call) -> list[str] | None:
+    """Field names (in order) when ``ctor`` constructs a package NamedTuple / dataclass."""
+    ci = corpus.find_class(fi.module.resolve(dotted(ctor.func) or ""))
+    if ci is None:
+        return None
+    is_nt = any(b.rsplit(".", 1)[-1] == "NamedTuple" for b in ci.bases)
+    is_dc = any((dotted(d.func if isinstance(d, ast.Call) else d) or "").rsplit(".", 1)[-1] == "dataclass" for d in ci.node.decorator_list)
+    if not (is_nt or is_dc):
+        return None
+    return [st.target.id for st in ci.node.body if isinstance(st, ast.AnnAssign) and isinstance(st.target, ast.Name)]
+
+
+def _return_components(corpus: Corpus, tf: FunctionInfo) -> list[tuple[ast.Return, dict]]:
+    """Per return statement of a helper: selector (tuple index and/or record field name) -> component expression."""
+    out = []
+    for r in tf.local_nodes():
+        if not isinstance(r, ast.Return):
+            continue
+        v = r.value
+        comps: dict = {}
+        if isinstance(v, ast.Tuple) and not any(isinstance(x, ast.Starred) for x in v.elts):
+            comps = dict(enumerate(v.elts))
+        elif isinstance(v, ast.Call):
+            fields = _record_fields(corpus, tf, v)
+            if fields is None:
+                raise Unsupported(f"{tf.qualname}: returns `{short(v, 40)}`, which is neither a tuple nor a package NamedTuple/dataclass")
+            for i, a in enumerate(v.args):
+                if isinstance(a, ast.Starred) or i >= len(fields):
+                    raise Unsupported(f"{tf.qualname}: `{short(v, 40)}` positional arguments")
+                comps[i] = comps[fields[i]] = a
+            for kw in v.keywords:
+                if kw.arg not in fields:
+                    raise Unsupported(f"{tf.qualname}: `{short(v, 40)}` keyword {kw.arg}")
+                comps[fields.index(kw.arg)] = comps[kw.arg] = kw.value
+        else:
+            raise Unsupported(f"{tf.qualname}: return value `{short(v, 40) if v is not None else None}` not understood")
+        out.append((r, comps))
+    if not out:
+        raise Unsupported(f"{tf.qualname}: no return statement")
+    return out
+
+
+def _helper_component(e: ast.expr, fi: FunctionInfo, ctx):
+    """(helper, selector) when ``e`` is `q.field` / `q[i]` / `helper(...)[i]` with q = helper(...), a package function."""
+    if ctx is None:
+        return None
+    corpus, g = ctx
+    sel = base = None
+    if isinstance(e, ast.Attribute):
+        sel, base = e.attr, e.value
+    elif isinstance(e, ast.Subscript) and isinstance(e.slice, ast.Constant) and type(e.slice.value) is int:
+        sel, base = e.slice.value, e.value
+    if base is None:
+        return None
+    if isinstance(base, ast.Name) and base.id not in fi.params:
+        try:
+            d = _defs_of(fi, base.id)
+        except Unsupported:
+            return None
+        if len(d) != 1:
+            return None
+        base = d[0]
+    if isinstance(base, ast.Call):
+        tf = _callee(base, fi, g)
+        if tf is not None and tf.fq != fi.fq:
+            return tf, sel, base
+    return None
+
+
 def _urlparse_var(e: ast.expr, fi: FunctionInfo) -> bool:
     if isinstance(e, ast.Name):
         d = _defs_of(fi, e.id)
@@ -1469,10 +1561,21 @@ def _urlparse_var(e: ast.expr, fi: FunctionInfo) -> bool:
     return False
 
 
-def _value_role(e: ast.expr, fi: FunctionInfo) -> str | None:
-    """Role (INV/DOMAIN/OTYPE/NAME/NONE) of a filter value handed on by a caller."""
+def _value_role(e: ast.expr, fi: FunctionInfo, ctx=None, depth: int = 0) -> str | None:
+    """Role (INV/DOMAIN/OTYPE/NAME/NONE) of a filter value handed on by a caller.
+    ``ctx`` = (corpus, call graph) lets the trace follow a value into the helper that computed it
+    (`q = self._parse(href)` ... `q.domains` / `a, b, c, d = self._parse(href)`)."""
     if isinstance(e, ast.Constant) and e.value is None:
         return "NONE"
+    hc = _helper_component(e, fi, ctx) if depth < 2 else None
+    if hc is not None:
+        tf, sel, _call = hc
+        roles = set()
+        for _r, comps in _return_components(ctx[0], tf):
+            if sel not in comps:
+                return None
+            roles.add(_value_role(comps[sel], tf, ctx, depth + 1))
+        return roles.pop() if len(roles) == 1 else None
     if isinstance(e, ast.Attribute) and isinstance(e.value, ast.Name):
         # argparse namespace in inventory_cli
         d = _defs_of(fi, e.value.id)
@@ -1500,7 +1603,7 @@ def _value_role(e: ast.expr, fi: FunctionInfo) -> str | None:
                         roles.add(HREF_INDEX_ROLE.get(d.slice.value, f"PATH[{d.slice.value}]"))
                         continue
                 return None
-            r = _value_role(d, fi)
+            r = _value_role(d, fi, ctx, depth)
             if r is None:
                 return None
             if r != "NONE":
@@ -1670,27 +1773,22 @@ class _Stop(Exception):  # return before the lookup
 
 
 class _Reached(Exception):
-    def __init__(self, state):
+    def __init__(self, state, node=None):
         self.state = state
+        self.node = node
 
 
 _CATCHES_INDEX = {"IndexError", "LookupError", "Exception", "BaseException"}
 
 
 class HrefParts:
-    """Which value each of the (invs, domains, otypes) variables holds at the lookup when the path has p parts."""
+    """Which value each of the (invs, domains, otypes) expressions holds when the path has p parts - at the lookup call
+    (``stop`` = that call) or at the return statement reached (``stop`` = None: the decomposition lives in a helper)."""
 
-    def __init__(self, fi: FunctionInfo, call: ast.Call):
+    def __init__(self, fi: FunctionInfo, stop: ast.Call | None, tracked: set[str]):
         self.fi = fi
-        self.call = call
-        self.role: dict[str, int] = {}
-        for kw in call.keywords:
-            if kw.arg in ("invs", "domains", "otypes"):
-                if not (isinstance(kw.value, ast.Name) and kw.value.id not in fi.params):
-                    raise Unsupported(f"{fi.qualname}: {kw.arg}=`{short(kw.value, 40)}` is not a local variable")
-                self.role[kw.value.id] = ("invs", "domains", "otypes").index(kw.arg)
-        if len(self.role) != 3:
-            raise Unsupported(f"{fi.qualname}: the three path filters are not handed on as three distinct locals")
+        self.call = stop
+        self.role = {n: True for n in tracked if n not in fi.params}  # locals whose values are tracked
         cands = []
         for n in fi.local_nodes():
             if isinstance(n, ast.Name) and isinstance(n.ctx, ast.Store) and n.id not in cands:
@@ -1821,6 +1919,10 @@ class HrefParts:
             if any(x is self.call for x in ast.walk(st)) and not isinstance(st, (ast.If, ast.With, ast.Try, ast.For, ast.While)):
                 raise _Reached(dict(state))
             if isinstance(st, ast.Return):
+                if self.call is None:
+                    if st.value is not None:
+                        self._check_subscripts(st.value, p)
+                    raise _Reached(dict(state), st)
                 raise _Stop()
             if isinstance(st, ast.With):
                 sup = False
@@ -1872,49 +1974,77 @@ class HrefParts:
                     raise Unsupported(f"{self.fi.qualname}: `{short(st, 50)}` assigns a filter variable in an unknown way")
 
     def at_lookup(self, p: int):
-        """('ok', state) | ('raises', None) | ('returns', None)"""
+        """('ok', state, node reached) | ('raises', None, None) | ('returns', None, None)"""
         state: dict = {}
         try:
             self._run(self.fi.node.body, state, p)
         except _Reached as r:
-            return "ok", r.state
+            return "ok", r.state, r.node
         except (_IndexErr, _OtherErr):
-            return "raises", None
+            return "raises", None, None
         except _Stop:
-            return "returns", None
+            return "returns", None, None
         raise Unsupported(f"{self.fi.qualname}: the inventory lookup was not reached by the abstract execution")
 
 
 def _href_parts_check(corpus: Corpus, rep: Report) -> None:
     fi = corpus.func("mdit_to_docutils.base:DocutilsRenderer.render_link_inventory")
+    g = get_callgraph(corpus)
     calls = _calls_to(fi, {"get_inventory_matches"})
     if len(calls) != 1:
         raise Unsupported(f"{fi.qualname}: {len(calls)} calls of get_inventory_matches")
-    hp = HrefParts(fi, calls[0])
-    names = {i: n for n, i in hp.role.items()}
+    given = {kw.arg: kw.value for kw in calls[0].keywords if kw.arg in ("invs", "domains", "otypes")}
+    if len(given) != 3:
+        raise Unsupported(f"{fi.qualname}: the three path filters are not all handed on by keyword")
+    order = ("invs", "domains", "otypes")
+    helpers = [_helper_component(given[a], fi, (corpus, g)) for a in order]
+    if all(h is None for h in helpers):
+        # the decomposition is in render_link_inventory itself
+        exprs = [given[a] for a in order]
+        if not all(isinstance(e, ast.Name) and e.id not in fi.params for e in exprs) or len({e.id for e in exprs}) != 3:
+            raise Unsupported(f"{fi.qualname}: the three path filters are not handed on as three distinct locals")
+        where, hp = fi, HrefParts(fi, calls[0], {e.id for e in exprs})
+        comps_at = lambda node: exprs  # noqa: E731
+    elif all(h is not None for h in helpers) and len({h[0].fq for h in helpers}) == 1 and len({id(h[2]) for h in helpers}) == 1:
+        # the decomposition moved into a helper whose result (tuple / NamedTuple / dataclass) is taken apart here
+        tf = helpers[0][0]
+        rets = dict((id(r), c) for r, c in _return_components(corpus, tf))
+        sels = [h[1] for h in helpers]
+        tracked = {x.id for c in rets.values() for sel in sels if sel in c for x in ast.walk(c[sel]) if isinstance(x, ast.Name)}
+        where, hp = tf, HrefParts(tf, None, tracked)
+
+        def comps_at(node):
+            c = rets[id(node)]
+            if any(sel not in c for sel in sels):
+                raise Unsupported(f"{tf.qualname}: returned value lacks component(s) {sels}")
+            return [c[sel] for sel in sels]
+    else:
+        raise Unsupported(f"{fi.qualname}: the three path filters come from different places")
     label = ("inventory", "domain", "object type")
     for p in (1, 2, 3):
         k = f"{fi.fq}|inv: path with {p} part(s): every given part reaches its filter"
-        status, state = hp.at_lookup(p)
+        status, state, node = hp.at_lookup(p)
         if status != "ok":
-            rep.violation("C19.R4", k, fi.module.site(calls[0]), f"with {p} ':'-separated path part(s) the function {status} before the inventory lookup")
+            rep.violation("C19.R4", k, fi.module.site(calls[0]), f"with {p} ':'-separated path part(s) {where.qualname} {status} before the inventory lookup")
             continue
         problems = []
+        exprs_p = comps_at(node)
         for i in range(3):
-            got = state.get(names[i], "UNBOUND")
+            name = unparse(exprs_p[i])
+            got = hp._tok(exprs_p[i], state, p) if not (isinstance(exprs_p[i], ast.Name) and exprs_p[i].id not in state) else "UNBOUND"
             want = ("PART", i) if i < p else "NONE"
             if got == want:
                 continue
             if got in ("OTHER", "UNBOUND") or (isinstance(got, tuple) and got[0] != "PART"):
-                raise Unsupported(f"{fi.qualname}: value of `{names[i]}` for a path with {p} part(s) not understood ({got})")
+                raise Unsupported(f"{where.qualname}: value of `{name}` for a path with {p} part(s) not understood ({got})")
             if got == "NONE":
-                problems.append(f"the {label[i]} part (part {i + 1}) is given but `{names[i]}` is still None at the lookup: the filter is silently dropped")
+                problems.append(f"the {label[i]} part (part {i + 1}) is given but `{name}` is still None at the lookup: the filter is silently dropped")
             elif want == "NONE":
-                problems.append(f"`{names[i]}` holds part {got[1] + 1} although no {label[i]} part was given")
+                problems.append(f"`{name}` holds part {got[1] + 1} although no {label[i]} part was given")
             else:
-                problems.append(f"`{names[i]}` holds part {got[1] + 1} instead of part {i + 1}")
+                problems.append(f"`{name}` holds part {got[1] + 1} instead of part {i + 1}")
         if problems:
-            rep.violation("C19.R4", k, fi.module.site(calls[0]), f"href `inv:{':'.join('abc'[:p])}#t`: " + "; ".join(problems) + " (an IndexError raised while evaluating a later part discards the bindings evaluated in the same statement / skips the following ones)")
+            rep.violation("C19.R4", k, where.module.site(node) if node is not None else fi.module.site(calls[0]), f"href `inv:{':'.join('abc'[:p])}#t`: " + "; ".join(problems) + " (an IndexError raised while evaluating a later part discards the bindings evaluated in the same statement / skips the following ones)")
         else:
             rep.ok("C19.R4", k, fi.module.site(calls[0]))
 
@@ -2056,7 +2186,7 @@ def r4_link_paths(corpus: Corpus, rep: Report, tier: str):
                 continue
             k = f"{fi.fq}|{'/'.join(sorted(callees))}({kw.arg}=)"
             want = FILTER_ROLE[kw.arg]
-            role = _value_role(kw.value, fi)
+            role = _value_role(kw.value, fi, (corpus, get_callgraph(corpus)))
             if role is None:
                 raise Unsupported(f"{fi.qualname}: filter argument {kw.arg}=`{short(kw.value, 40)}` not traced to a role")
             if role == want or role == "NONE":
@@ -2103,32 +2233,35 @@ def r4_link_paths(corpus: Corpus, rep: Report, tier: str):
         else:
             rep.ok("C19.R4", k, fi.module.site(mdef))
 
-        def emits(f: FunctionInfo, tag: str):
-            return [c for c in f.local_nodes() if isinstance(c, ast.Call) and any((dotted(x) or "").endswith(f"MystWarnings.{tag}") for x in [*c.args, *[kw.value for kw in c.keywords]])]
+        def emits(tag: str):
+            return lambda f: [c for c in f.local_nodes() if isinstance(c, ast.Call) and any((dotted(x) or "").endswith(f"MystWarnings.{tag}") for x in [*c.args, *[kw.value for kw in c.keywords]])]
 
-        def ev_calls(tag: str):
-            direct = emits(fi, tag)
-            if direct:
-                return direct
-            # emission extracted into a helper: a call of a package function that emits the tag exactly once on every path
-            out = []
+        def builds_reference(f: FunctionInfo):
+            return [c for c in f.local_nodes() if isinstance(c, ast.Call) and f.module.resolve(dotted(c.func) or "") == "docutils.nodes.reference"]
+
+        def ev_calls(direct_in, what: str):
+            """Event sites in this function: direct ones, plus calls of a package helper that produces the event
+            exactly once on every one of its paths (code moved into a helper is followed one level)."""
+            out = list(direct_in(fi))
             for c in fi.local_nodes():
                 if not isinstance(c, ast.Call):
                     continue
                 for tf in g.flat_targets(g.resolve_call(c, fi)):
-                    if tf.fq == fi.fq or tf.is_lambda or not emits(tf, tag):
+                    if tf.fq == fi.fq or tf.is_lambda or not direct_in(tf):
                         continue
+                    if "get_inventory_matches" in tf.qualname:
+                        continue  # the lookup itself (its load-failure warnings are not link events)
                     tcfg = get_cfg(tf)
                     ws: dict[object, int] = {}
-                    for e in emits(tf, tag):
+                    for e in direct_in(tf):
                         ws[tcfg.stmt_of(e)] = ws.get(tcfg.stmt_of(e), 0) + 1
                     if tcfg.counts(ENTRY, [EXIT], lambda x: ws.get(x, 0) if not isinstance(x, (tuple, str)) else 0).get(EXIT) != {1}:
-                        raise Unsupported(f"{fi.qualname}: {tag} is emitted by helper {tf.qualname} on some paths only; not modelled")
+                        raise Unsupported(f"{fi.qualname}: {what} is produced by helper {tf.qualname} on some paths only; not modelled")
                     out.append(c)
             return out
 
-        miss, amb = ev_calls("IREF_MISSING"), ev_calls("IREF_AMBIGUOUS")
-        refs = [c for c in fi.local_nodes() if isinstance(c, ast.Call) and fi.module.resolve(dotted(c.func) or "") == "docutils.nodes.reference"]
+        miss, amb = ev_calls(emits("IREF_MISSING"), "IREF_MISSING"), ev_calls(emits("IREF_AMBIGUOUS"), "IREF_AMBIGUOUS")
+        refs = ev_calls(builds_reference, "the reference node")
         if not refs:
             raise Unsupported(f"{fi.qualname}: no nodes.reference construction found")
 
@@ -2153,7 +2286,16 @@ def r4_link_paths(corpus: Corpus, rep: Report, tier: str):
         # outcome class "the link destination cannot be parsed": the handler(s) of a try around the href parse.
         # No lookup happens there, so the match-count obligations below hold for the paths on which the parse succeeded;
         # the handler path itself must end normally with exactly one warning, no reference and no lookup.
-        parse_tries = [t for t in fi.local_nodes() if isinstance(t, ast.Try) and any(isinstance(c, ast.Call) and fi.module.resolve(dotted(c.func) or "") in ("urllib.parse.urlparse", "urllib.parse.urlsplit") for b in t.body for c in ast.walk(b))]
+        def parses_href(c: ast.Call, f: FunctionInfo, depth: int = 0) -> bool:
+            if f.module.resolve(dotted(c.func) or "") in ("urllib.parse.urlparse", "urllib.parse.urlsplit"):
+                return True
+            if depth < 1:
+                tf = _callee(c, f, g)
+                if tf is not None and tf.fq != f.fq:
+                    return any(isinstance(x, ast.Call) and parses_href(x, tf, depth + 1) for x in tf.local_nodes())
+            return False
+
+        parse_tries = [t for t in fi.local_nodes() if isinstance(t, ast.Try) and any(isinstance(c, ast.Call) and parses_href(c, fi) for b in t.body for c in ast.walk(b))]
         parse_handlers = frozenset(("H", h) for t in parse_tries for h in t.handlers)
         lookups = [c for c in fi.local_nodes() if isinstance(c, ast.Call) and (dotted(c.func) or "").rsplit(".", 1)[-1] in ("get_inventory_matches", "filter_inventories", "filter_sphinx_inventories")]
         for t in parse_tries:
